@@ -454,7 +454,7 @@ impl Prop for C11 {
     }
 
     fn runner(&self) -> Box<dyn Runner> {
-        Box::new(R { rx: None, tx: None })
+        Box::new(R::new())
     }
 }
 
@@ -473,24 +473,32 @@ struct Rx {
     all_frames: Vec<String>,
 }
 
-struct Tx {
-    sb: VSendBuffer,
-    sc: SecureChannel,
+pub struct Tx {
+    pub sb: VSendBuffer,
+    pub sc: SecureChannel,
     rt: tokio::runtime::Runtime,
     buffer_size: usize,
     max_msg: usize,
+    /// (request id, number of chunks) of every accepted write — used by C12
+    pub writes: Vec<(u32, usize)>,
     /// reference, written from the property text: the concatenation of the secured chunks of every
     /// accepted message, in order; and what the sink received so far
-    expected: Vec<u8>,
-    emitted: Vec<u8>,
-    chunks_total: u32,
+    pub expected: Vec<u8>,
+    pub emitted: Vec<u8>,
+    pub chunks_total: u32,
     messages: Vec<SupportedMessage>,
-    lost: bool,
+    pub lost: bool,
 }
 
-struct R {
+pub struct R {
     rx: Option<Rx>,
-    tx: Option<Tx>,
+    pub tx: Option<Tx>,
+}
+
+impl R {
+    pub fn new() -> R {
+        R { rx: None, tx: None }
+    }
 }
 
 /// frames of the whole stream delivered in ONE read to a fresh codec
@@ -624,6 +632,7 @@ impl Runner for R {
                     rt: tokio::runtime::Builder::new_current_thread().build().unwrap(),
                     buffer_size: bs,
                     max_msg: mm,
+                    writes: Vec::new(),
                     expected: Vec::new(),
                     emitted: Vec::new(),
                     chunks_total: 0,
@@ -693,8 +702,27 @@ impl Runner for R {
                 };
                 let req: u32 = req.parse().unwrap();
                 // reference: the secured chunks of this message, numbered after all earlier chunks
-                let reference = Chunker::encode(tx.chunks_total + 1, req, tx.max_msg, tx.buffer_size, &tx.sc, &msg);
-                match tx.sb.write(req, msg.clone(), &tx.sc) {
+                // (numbering from 1 first: tells how many chunks the message needs)
+                let need = Chunker::encode(1, req, tx.max_msg, tx.buffer_size, &tx.sc, &msg).map(|c| c.len()).unwrap_or(0);
+                let wraps = tx.chunks_total as u64 + need as u64 > u32::MAX as u64;
+                let reference = if wraps {
+                    Err(StatusCode::BadUnexpectedError)
+                } else {
+                    Chunker::encode(tx.chunks_total + 1, req, tx.max_msg, tx.buffer_size, &tx.sc, &msg)
+                };
+                let res = {
+                    let (sb, sc) = (&mut tx.sb, &tx.sc);
+                    std::panic::catch_unwind(std::panic::AssertUnwindSafe(|| sb.write(req, msg.clone(), sc)))
+                };
+                let res = match res {
+                    Ok(r) => r,
+                    Err(_) => {
+                        // class from the input: the sender counter would pass u32::MAX
+                        let class = if wraps { "seq-wrap" } else { "-" };
+                        return ("panic".to_string(), Verdict::fail("no_panic", class, "SendBuffer::write panicked"));
+                    }
+                };
+                match res {
                     Ok(r) => {
                         let Ok(chunks) = reference else {
                             return ("ok ?".to_string(), Verdict::fail("write_accepts", "write", "write accepted a message the chunker rejects"));
@@ -705,6 +733,7 @@ impl Runner for R {
                             tx.expected.extend_from_slice(&tmp[..n]);
                         }
                         tx.chunks_total += chunks.len() as u32;
+                        tx.writes.push((req, chunks.len()));
                         tx.messages.push(msg);
                         let v = if r != req {
                             Verdict::fail("write_accepts", "write", "returned another request id")
